@@ -135,11 +135,17 @@ func setRs(node *topicNode, rs subscription.ClientSubscriptions) {
 
 // matchTopic get all matched topic for given topicSlice, and set into rs
 func (t *topicTrie) matchTopic(topicSlice []string, rs subscription.ClientSubscriptions) {
+	t.matchTopicLevel(topicSlice, rs, true)
+}
+
+// matchTopicLevel is matchTopic with the wildcards of the current level optionally disabled:
+// topic filters starting with a wildcard must not match topic names beginning with '$' [MQTT-4.7.2-1].
+func (t *topicTrie) matchTopicLevel(topicSlice []string, rs subscription.ClientSubscriptions, wildcards bool) {
 	endFlag := len(topicSlice) == 1
-	if cnode := t.children["#"]; cnode != nil {
+	if cnode := t.children["#"]; cnode != nil && wildcards {
 		setRs(cnode, rs)
 	}
-	if cnode := t.children["+"]; cnode != nil {
+	if cnode := t.children["+"]; cnode != nil && wildcards {
 		if endFlag {
 			setRs(cnode, rs)
 			if n := cnode.children["#"]; n != nil {
@@ -165,7 +171,7 @@ func (t *topicTrie) matchTopic(topicSlice []string, rs subscription.ClientSubscr
 func (t *topicTrie) getMatchedTopicFilter(topicName string) subscription.ClientSubscriptions {
 	topicLv := strings.Split(topicName, "/")
 	subs := make(subscription.ClientSubscriptions)
-	t.matchTopic(topicLv, subs)
+	t.matchTopicLevel(topicLv, subs, !isSystemTopic(topicName))
 	return subs
 }
 
